@@ -255,6 +255,21 @@ def main(tier, replay=None):
     for _ in range(2500 if quick else 60000):
         env = base_env()
         rnd.append({'ast': rand_tree(rng, rng.choice([2, 3, 4, 5, 6, 8, 12, 18, 25]), env, [0]), 'env': env})
+    # deep nesting: left- and right-leaning chains (their full resp. minimal rendering nests one parenthesis
+    # per operator) and a leaf under many unary minus signs
+    for depth in ((70, 100) if quick else (70, 100, 200, 400)):
+        for side in ('l', 'r'):
+            for ops in (['-', '+'], ['-'], ['/', '*'], ['&']):
+                t = F.num('1')
+                for i in range(depth):
+                    leaf = F.num(str(i % 7 + 2))
+                    op = ops[i % len(ops)]
+                    t = F.binop(op, t, leaf) if side == 'l' else F.binop(op, leaf, t)
+                rnd.append({'ast': t, 'env': base_env()})
+        t = F.num('5')
+        for i in range(depth):
+            t = F.neg(t)
+        rnd.append({'ast': t, 'env': base_env()})
     CH = 20000
     for k in range(0, len(rnd), CH):
         cases += render_by_spec(run, rnd[k:k + CH])
